@@ -505,3 +505,86 @@ func verifC05_pair() {
 	b.CloseNow()
 	vObserve("pair", len(g.msgs), vWireSummary(tb.out))
 }
+
+// C05.read-vs-close: a reader is in the middle of a message (it has read part of the first frame's payload) when another
+// goroutine calls Close. The close handshake takes over the read side: it discards the rest of the frame and reads on.
+// The peer then finishes its message and answers the Close frame, or answers at once, or violates the protocol and
+// keeps sending. Conn.Close is casClosing(); closeHandshake(); close(); waitGoroutines(): the harness runs these steps
+// itself and lets the reader's pending Read run between any two of them (the schedule in which the reader goroutine is
+// the one that runs at that statement boundary). The reader either completes its message correctly or fails, and every
+// byte it got is a prefix of its message.
+func verifC05_read_vs_close() {
+	client := vParam("client", 1) == 1
+	vInstallRand()
+	mk := func(f vFrame) vFrame {
+		f.masked = !client
+		if f.masked {
+			copy(f.key[:], vBytes("key", 4))
+		}
+		return f
+	}
+	msg := vBytes("m", 4)
+	f1 := mk(vFrame{fin: false, opcode: 2, payload: msg[:3]})
+	f2 := mk(vFrame{fin: true, opcode: 0, payload: msg[3:]})
+	var after []vFrame
+	peer := vChoose("peer", 3)
+	switch peer {
+	case 0: // a correct peer: finishes its message, then answers the Close frame
+		after = []vFrame{f2, mk(vFrame{fin: true, opcode: 8, payload: []byte{0x03, 0xe8}})}
+	case 1: // answers the Close frame at once (its message stays unfinished)
+		after = []vFrame{mk(vFrame{fin: true, opcode: 8, payload: []byte{0x03, 0xe8}})}
+	case 2: // violates the protocol after our Close frame (reserved bit) and keeps sending
+		after = []vFrame{mk(vFrame{fin: true, rsv2: true, opcode: 2, payload: vBytes("junk", 2)}), mk(vFrame{fin: true, opcode: 2, payload: vBytes("junk", 3)})}
+	}
+	wire := vEncodeFrame(f1)
+	gateAt := len(wire)
+	wire = append(wire, vEncodeFrames(after)...)
+	t := vNewTransport(wire)
+	t.endMode = vEndBlock
+	t.vGate(gateAt, 1) // what follows the first frame arrives once our Close frame is on the wire
+	c := vNewConn(t, client, nil, 16, 64)
+	_, r, err := c.Reader(vBG)
+	vAssert(err == nil, "C05.read-vs-close.setup")
+	p := make([]byte, 1)
+	n, err := r.Read(p)
+	vAssert(vAnd(err == nil, n == 1), "C05.read-vs-close.setup")
+	got := append([]byte{}, p[:n]...)
+	var rerr error
+	readerRuns := func() {
+		for i := 0; i < 4 && rerr == nil; i++ {
+			q := make([]byte, 2)
+			k, e := r.Read(q)
+			got = append(got, q[:k]...)
+			rerr = e
+		}
+	}
+	at := 1 + vChoose("readerRunsAfter", 2)
+	// --- Conn.Close, statement by statement ---
+	vAssert(c.casClosing(), "C05.read-vs-close.setup")
+	c.closeHandshake(StatusNormalClosure, "")
+	if at == 1 {
+		readerRuns()
+	}
+	c.close()
+	if at == 2 {
+		readerRuns()
+	}
+	c.waitGoroutines()
+	vReach("C05.read-vs-close.done")
+	switch peer {
+	case 0:
+		vClassify("peer", "finishes-message-then-closes")
+	case 1:
+		vClassify("peer", "closes-at-once")
+	case 2:
+		vClassify("peer", "protocol-violation-after-our-close")
+	}
+	vClassify("reader-runs", []string{"before-handshake", "between-handshake-and-close", "after-close"}[at])
+	vAssert(vIsPrefix(got, msg), "C05.read-vs-close.bytes-are-a-prefix-of-the-message")
+	if rerr == errEOFBare {
+		vReach("C05.read-vs-close.completed")
+		vAssert(vEqBytes(got, msg), "C05.read-vs-close.clean-end-only-when-complete")
+	}
+	c.CloseNow()
+	vObserve("read-vs-close", peer, at, len(got))
+}
